@@ -142,6 +142,8 @@ pub fn body(kind: Kind) -> Arc<dyn Fn() + Send + Sync + 'static> {
             let t = thread::spawn(move || {
                 f2.store(true, Ordering::SeqCst);
             });
+            // round-robin hands over to the spawned thread here, DFS's first schedule stays on task 0
+            thread::yield_now();
             if !flag.load(Ordering::SeqCst) {
                 panic!("c12 payload: order body lost the race");
             }
